@@ -1,11 +1,15 @@
 #!/bin/bash
-# usage: tools/seedtest.sh <patch.diff> <check id>...   -- applies the patch to /repo, runs the checks, reverts
+# usage: tools/seedtest.sh <patch.diff> <check id>...   -- applies the patch to /repo, runs the checks, reverts.
+# The evidence files are saved and restored: what is committed must come from runs on the unchanged tree.
 set -u
 patch=$(realpath $1); shift
-git -C /repo apply "$patch" || { echo "patch does not apply"; exit 2; }
+bak=$(mktemp -d /tmp/evbak.XXXXXX)
+cp -a /verif/evidence/. "$bak"/
+git -C /repo apply "$patch" || { echo "patch does not apply"; rm -rf "$bak"; exit 2; }
 for id in "$@"; do
   echo "=== $id with $(basename $(dirname $patch))/$(basename $patch)"
   python3 /verif/tools/check.py $id --tier quick 2>&1 | grep -E "VIOLATION|KNOWN|\] (OK|FAIL)" | cut -c1-300
 done
 git -C /repo checkout -- .
 git -C /repo status --short | head -3
+rm -rf /verif/evidence; mkdir -p /verif/evidence; cp -a "$bak"/. /verif/evidence/; rm -rf "$bak"
